@@ -95,7 +95,7 @@ func (r *vFaultReader) Read(p []byte) (int, error) {
 }
 
 var c10Errors = []error{io.ErrUnexpectedEOF, errors.New("verif: injected read error"), syscall.EISDIR, syscall.EIO,
-	&os.PathError{Op: "read", Path: "log.yaml", Err: os.ErrClosed}, io.ErrClosedPipe, fmt.Errorf("wrapped: %w", io.EOF), os.ErrDeadlineExceeded, syscall.EINTR}
+	&os.PathError{Op: "read", Path: "log.yaml", Err: os.ErrClosed}, io.ErrClosedPipe, fmt.Errorf("wrapped: %w", io.EOF), os.ErrDeadlineExceeded, syscall.EINTR, syscall.EAGAIN, fmt.Errorf("read log.yaml: %w", syscall.EINTR)}
 
 type c10ParserCase struct {
 	Doc    vDoc  `json:"doc"`
@@ -168,7 +168,14 @@ func genC10Parser(t *rapid.T) c10ParserCase {
 		for k := 0; k < ne; k++ {
 			lines = append(lines, vLine{Kind: vkEntry, Name: pool[rapid.IntRange(0, 3).Draw(t, "ei")], Num: vGenNumDecimal(t, "num"), L: vGenEntryLayout(t, lo, "el")})
 		}
-		d.Recs = append(d.Recs, vRec{Head: vGenName(t, true, "head"), HL: vGenHeadLayout(t, lo, "hl"), Lines: lines})
+		rec := vRec{Head: vGenName(t, true, "head"), HL: vGenHeadLayout(t, lo, "hl"), Lines: lines}
+		switch rapid.IntRange(0, 7).Draw(t, "barehead") {
+		case 0: // a heading without its colon
+			rec.HL.NoColon, rec.HL.Quote = true, false
+		case 1: // a line that YAML would read as a document marker is a heading like any other here
+			rec.Head, rec.HL.NoColon, rec.HL.Quote = []string{"...", "....", "…"}[rapid.IntRange(0, 2).Draw(t, "marker")], true, false
+		}
+		d.Recs = append(d.Recs, rec)
 	}
 	vDecorate(t, &d, lo, true, "deco")
 	c := c10ParserCase{Doc: d, Err: rapid.IntRange(0, len(c10Errors)-1).Draw(t, "err")}
